@@ -8,7 +8,7 @@
    AND name) or, directly, a component outside the loop. *)
 From Coq Require Import String List NArith Permutation.
 Import ListNotations.
-Require Import V.Lib.PyStr V.Lib.JTree V.Loop.Model V.Loop.Proofs V.Loop.Edges V.Loop.Subst.
+Require Import V.Lib.PyStr V.Lib.JTree V.Loop.Model V.Loop.Proofs V.Loop.Edges V.Loop.Subst V.Loop.Multi V.Loop.MultiProofs.
 Open Scope N_scope.
 
 (* After k further iterations the workflow contains exactly the instances 0..k of every looped component
@@ -129,6 +129,107 @@ Theorem C05_placeholder_view : forall (d : dowhile) (out : list ocomp) (k : nat)
 Proof. intros d out k c n WF Hc. exact (ph_preds_spec d out WF c k n Hc). Qed.
 Print Assumptions C05_placeholder_view.
 
+(* What the Controller registers as "the component whose termination decides the next iteration" of the loop
+   (Controller.parse_workflow_graph -> comp_condition_to_dowhile, read by finishedCheck; the 'C:' tag of the status
+   report): after Controller.initialise (j = 0) and after each of the k calls of
+   Controller._instantiate_next_dowhile_iteration (j = 1..k) it is instance j of the looped component with the STAGE
+   and name of the document's condition — whatever stage of the loop body that component lives in.
+   [trace_from k (init d out)] lists the workflows after 0..k calls; its last element is [unroll d out k]. *)
+Theorem C05_controller_condition : forall (d : dowhile) (out : list ocomp) (k j : nat), wf_doc d -> (j <= k)%nat ->
+  last (trace_from k (init d out)) (init d out) = unroll d out k /\
+  exists cc, In cc (d_comps d) /\ comp_id (d_stage d) cc = cond_id d /\
+    option_map ctl_cond (nth_error (trace_from k (init d out)) j) = Some [inode d (N.of_nat j) cc].
+Proof. intros d out k j WF Hj. split; [apply trace_last|exact (ctl_cond_trace d out WF k j Hj)]. Qed.
+Print Assumptions C05_controller_condition.
+
+(* SEVERAL DoWhile documents in one workflow ([munroll docs out seq]: the documents instantiated in the order seq, each
+   call with next = that document's currentIteration + 1; [wf_multi]: every document well formed, a (stage, name)
+   pair looped in at most one document; [cnt j seq] = how often document j was instantiated).
+   Instances: the looped instances of the workflow are exactly, for every document, those of its own iterations
+   0..cnt j seq; a call for document j adds exactly iteration (cnt j seq)+1 of document j and nothing else; instance
+   i of a component of document j has the references [wire d i] of C05_wiring. *)
+Theorem C05_multi_instances : forall (docs : list dowhile) (out : list ocomp) (seq : list nat), wf_multi docs ->
+  (forall x, In x (m_loop (munroll docs out seq)) <->
+             exists j d, nth_error docs j = Some d /\ In x (w_loop (unroll d out (cnt j seq)))) /\
+  (forall j d, nth_error docs j = Some d ->
+     m_loop (munroll docs out (seq ++ [j])) =
+     (m_loop (munroll docs out seq) ++ instantiate d (N.of_nat (S (cnt j seq))))%list) /\
+  (forall j d i c, nth_error docs j = Some d -> i <= N.of_nat (cnt j seq) -> In c (d_comps d) ->
+     In (mk_inst (c_stage c + d_stage d) (iname i (c_name c)) i (map (wire d i (c_stage c)) (c_refs c)))
+        (m_loop (munroll docs out seq))).
+Proof.
+  intros docs out seq WM.
+  assert (H1 : forall x, In x (m_loop (munroll docs out seq)) <->
+             exists j d, nth_error docs j = Some d /\ In x (w_loop (unroll d out (cnt j seq)))).
+  { intros x. rewrite (multi_instances docs out WM seq x). split; intros [j [d [Hj Hx]]]; exists j, d; (split; [exact Hj|]).
+    - rewrite (instances_exact d out (wf_nth docs WM j d Hj)). exact Hx.
+    - rewrite (instances_exact d out (wf_nth docs WM j d Hj)) in Hx. exact Hx. }
+  split; [exact H1|]. split; [intros j d Hj; exact (multi_step docs out WM seq j d Hj)|].
+  intros j d i c Hj Hi Hc. apply H1. exists j, d. split; [exact Hj|].
+  exact (wiring d out (wf_nth docs WM j d Hj) (cnt j seq) i c Hi Hc).
+Qed.
+Print Assumptions C05_multi_instances.
+
+(* Frame: everything document j sees of the workflow — the instances represented by its placeholders, their latest
+   instance, map_placeholder_id_to_iteration, the Controller's view of a placeholder, the DoWhile state, the
+   resolution of a reference to one of its looped components — is what the single-loop workflow [unroll d out k]
+   with k = cnt j seq has; the iterations of the other documents (before, after, in between) change none of it. *)
+Theorem C05_multi_frame : forall (docs : list dowhile) (out : list ocomp) (seq : list nat) (j : nat) (d : dowhile),
+  wf_multi docs -> nth_error docs j = Some d ->
+  let m := munroll docs out seq in
+  let w := unroll d out (cnt j seq) in
+  (forall p, in_loop_ids d p = true ->
+     represents (m_loop m) p = represents (w_loop w) p /\
+     latest KeyInt (view m d) p = latest KeyInt w p /\ map_latest KeyInt (view m d) p = map_latest KeyInt w p /\
+     ph_preds (view m d) p = ph_preds w p) /\
+  cur_iter (view m d) = cur_iter w /\ cur_cond (view m d) = cur_cond w /\ ctl_cond (view m d) = ctl_cond w /\
+  (forall a, in_loop_ids d (a_stage a, a_prod a) = true -> mresolve m a = resolve KeyInt w a).
+Proof.
+  intros docs out seq j d WM Hj m w. destruct (multi_view docs out WM seq j d Hj) as [H1 [H2 [H3 [H4 H5]]]].
+  split; [|split; [exact H1|split; [exact H2|split; [exact H3|exact H5]]]].
+  intros p Hp. split; [exact (multi_frame docs out WM seq j d p Hj Hp)|exact (H4 p Hp)].
+Qed.
+Print Assumptions C05_multi_frame.
+
+(* ... hence, per document and with ITS OWN iteration count k = cnt j seq: the newest instance of each of its looped
+   components is iteration k, its state is iteration k with the condition produced by iteration k, the Controller
+   registers that producer, outside references resolve to iteration k / list 0..k in increasing order. *)
+Theorem C05_multi_latest : forall (docs : list dowhile) (out : list ocomp) (seq : list nat) (j : nat) (d : dowhile) (c : comp),
+  wf_multi docs -> nth_error docs j = Some d -> In c (d_comps d) ->
+  let m := munroll docs out seq in
+  let k := cnt j seq in
+  let p := comp_id (d_stage d) c in
+  latest KeyInt (view m d) p = Some (instance_of d (N.of_nat k) c) /\
+  map_latest KeyInt (view m d) p = Some (inst_node (instance_of d (N.of_nat k) c)) /\
+  cur_iter (view m d) = N.of_nat k /\
+  (exists cc, In cc (d_comps d) /\ comp_id (d_stage d) cc = cond_id d /\
+     cur_cond (view m d) = pr_ref (mk_aref (c_stage cc + d_stage d) (iname (N.of_nat k) (c_name cc)) (l_file (d_cond d)) "output") /\
+     ctl_cond (view m d) = [inode d (N.of_nat k) cc]) /\
+  (forall a, (a_stage a, a_prod a) = p -> mresolve m a = resolve_spec d c k a).
+Proof.
+  intros docs out seq j d c WM Hj Hc m k p. pose proof (wf_nth docs WM j d Hj) as WF.
+  destruct (multi_view docs out WM seq j d Hj) as [H1 [H2 [H3 [H4 H5]]]]. fold m in H1, H2, H3, H4, H5. fold k in H1, H2, H3, H4, H5.
+  assert (Hp : in_loop_ids d p = true) by (apply in_loop_ids_spec; exists c; auto).
+  destruct (H4 p Hp) as [L1 [L2 _]].
+  split; [rewrite L1; exact (latest_upto d out WF c k Hc)|].
+  split; [rewrite L2; exact (map_latest_upto d out WF c k Hc)|].
+  destruct (state_upto d out WF k) as [cc [Hcc [Hn [Hi Hcur]]]].
+  split; [rewrite H1; exact Hi|]. split.
+  - exists cc. split; [exact Hcc|]. split; [exact Hn|]. split; [rewrite H2; exact Hcur|].
+    rewrite H3. destruct (ctl_cond_unroll d out WF k) as [cc' [Hcc' [Hn' E]]].
+    assert (cc' = cc) by (apply (comp_of_id d WF); auto; congruence). subst cc'. exact E.
+  - intros a Ha. rewrite H5 by (rewrite Ha; exact Hp). exact (resolve_outside d out WF c k a Hc Ha).
+Qed.
+Print Assumptions C05_multi_latest.
+
+(* comp_condition_to_dowhile for the whole workflow: one entry per document, the condition producer of that
+   document's own newest iteration *)
+Theorem C05_multi_conditions : forall (docs : list dowhile) (out : list ocomp) (seq : list nat), wf_multi docs ->
+  mconds (munroll docs out seq) =
+  flat_map (fun jd => ctl_cond (unroll (snd jd) out (cnt (fst jd) seq))) (combine (List.seq 0%nat (length docs)) docs).
+Proof. intros docs out seq WM. exact (multi_conds docs out WM seq). Qed.
+Print Assumptions C05_multi_conditions.
+
 (* Command lines (flowir.rewrite_all_references = one re.sub(r'\b<text>\b', <new>, value, 1) per discovered
    reference text, in order).  (a) reference texts that do not occur word-bounded in a value leave it unchanged;
    (b) a value that is one reference text (an entry of the references list) becomes exactly its new form;
@@ -191,6 +292,17 @@ Example C05_nonvacuous :
   existsb (edge_eqb ("stage2.work", "stage2.11#stop")%string) (w_edges (unroll ex_doc4 ex_out4 11)) = true /\
   ph_preds (unroll ex_doc4 ex_out4 2) (1, "work"%string) =
     ["stage1.0#work"; "stage1.1#work"; "stage1.2#work"; "stage2.2#stop"]%string /\
+  (* the Controller registers the condition's producer of stage 2 for a loop imported in stage 1 *)
+  ctl_cond (unroll ex_da ex_mout 2) = ["stage2.2#stop"]%string /\
+  (* two documents, "work" looped in both (stage 1 / stage 2); the second one instantiated three times, then the
+     first one once: each placeholder points into its own loop, each document has its own state *)
+  wf_multi ex_docs /\ cnt 1 [1; 1; 1; 0]%nat = 3%nat /\
+  option_map inst_node (latest KeyInt (view (munroll ex_docs ex_mout [1; 1; 1; 0]%nat) ex_da) (1, "work"%string)) = Some "stage1.1#work"%string /\
+  option_map inst_node (latest KeyInt (view (munroll ex_docs ex_mout [1; 1; 1; 0]%nat) ex_db) (2, "work"%string)) = Some "stage2.3#work"%string /\
+  mconds (munroll ex_docs ex_mout [1; 1; 1; 0]%nat) = ["stage2.1#stop"; "stage2.3#halt"]%string /\
+  mresolve (munroll ex_docs ex_mout [1; 0; 1]%nat) (mk_aref 2 "work" "" "loopref") =
+    "stages/stage2/0#work stages/stage2/1#work stages/stage2/2#work"%string /\
+  mresolve (munroll ex_docs ex_mout [1; 0; 1]%nat) (mk_aref 1 "work" "" "ref") = "stages/stage1/1#work"%string /\
   (* command lines: 132 name pairs are swept, 'b' then 'a-b' is rewritten as intended *)
   length name_pairs = 132%nat /\ overlap "b" "a-b" = false /\
   rewritten 1 10 "b" "a-b" = "stage1.10#b:ref stage1.10#a-b:ref"%string.
@@ -210,5 +322,8 @@ Proof.
     split; [vm_compute; reflexivity|]. split; [vm_compute; reflexivity|]. split; [vm_compute; reflexivity|].
     split; [vm_compute; reflexivity|]. split; [vm_compute; reflexivity|]. split; [vm_compute; reflexivity|].
     split; [vm_compute; reflexivity|].
+    split; [vm_compute; reflexivity|]. split; [exact ex_docs_wf|].
+    split; [vm_compute; reflexivity|]. split; [vm_compute; reflexivity|]. split; [vm_compute; reflexivity|].
+    split; [vm_compute; reflexivity|]. split; [vm_compute; reflexivity|]. split; [vm_compute; reflexivity|].
     vm_compute. repeat split.
 Qed.
